@@ -56,5 +56,11 @@ package kgo
 //@   prop C19
 //@   ensures [zstd-never-chosen-when-disabled] (exists k in 0..len(flags) :: old(flags[k]) == CompressDisableZstd) ==> codec != CodecZstd
 //@   ensures [a-configured-option] codec == -1 || codec == 0 || (exists k in 0..old(len(c.options)) :: old(c.options[k]) == codec)
+//   the arm that runs is the arm of the reported codec, and the Snappy arm emits the Snappy block format
+//   (s2.EncodeSnappy: readable by every Snappy decoder), not the S2 extension of it (s2.Encode)
+//@   site call EncodeSnappy#0 assert [snappy-arm-only-for-snappy] use == CodecSnappy && arg1 == src
+//@   site call EncodeAll#0 assert [zstd-arm-only-for-zstd] use == CodecZstd && arg1 == src
+//@   ensures [snappy-output-is-plain-snappy] (codec == CodecSnappy) ==> (reached($EncodeSnappy0) && out == $EncodeSnappy0)
+//@   ensures [zstd-output-from-the-zstd-encoder] (codec == CodecZstd) ==> (reached($EncodeAll0) && out == $EncodeAll0)
 //@   loop 0 invariant disableZstd <==> (exists k in 0..rangeindex+1 :: flags[k] == CompressDisableZstd)
 //@   loop 1 invariant use == 0
